@@ -384,7 +384,8 @@ class ProverCheck(TraceCheck):
             return trace
         atk = PV.Attack(trace, PV.plan_consts(plan))
         b = plan["cfg"]["bitlength"]
-        for lies, v, a, rep in atk.search(rng, b, self.wire_budget):
+        deep = 3 if case.get("deep") else 1       # thorough tier: three times the lie budget per plan
+        for lies, v, a, rep in atk.search(rng, b, self.wire_budget * deep):
             r = v[1]
             s = dict(r["desc"])
             s["mode"] = "wire"
@@ -405,14 +406,14 @@ class ProverCheck(TraceCheck):
             hint_order = list(range(len(trace.hints)))
             rng.shuffle(hint_order)
             for hi in hint_order:
-                if nsh >= self.shadow_budget or viol:
+                if nsh >= self.shadow_budget * deep or viol:
                     break
                 k = trace.hints[hi]
                 hv = trace.priv[-k - 1]
                 for cand in (hv + 1, hv - 1, 1 - hv, 0, -hv):
                     if cand == hv:
                         continue
-                    if nsh >= self.shadow_budget:
+                    if nsh >= self.shadow_budget * deep:
                         break
                     nsh += 1
                     # hint index among PrivVal calls after the inputs = position in trace.priv minus priv inputs
@@ -472,7 +473,7 @@ class C02(ProverCheck):
             plan = P.generate(rng, cfg, w, n_stmts=rng.choice([2, 3, 4]))
         else:
             plan = P.generate(rng, cfg, self.weights, n_stmts=rng.choice([1, 1, 2, 3]))
-        return {"plan": plan, "seed": rng.randrange(1 << 30)}
+        return {"plan": plan, "seed": rng.randrange(1 << 30), "deep": tier == "thorough"}
 
     def run(self, case):
         plan = case["plan"]
